@@ -318,8 +318,8 @@ def gen_model(rng):
     if rng.random() < 0.3:
         m.producer_name = "verif"
     nfun = rng.choice([0, 0, 1, 2])
-    if nfun and m.ir_version < 10 and rng.random() < 0.85:
-        m.ir_version = 10     # IR<10 keeps function value-info in an experimental format the model leaves out
+    if nfun and m.ir_version < 10 and rng.random() < 0.5:
+        m.ir_version = 10     # the rest exercises the IR<10 experimental function value-info format (C03/ModelOld.v)
     for fi in range(nfun):
         fn = _Names(rng)
         ins = [fn.fresh() for _ in range(rng.randrange(0, 3))]
@@ -1373,7 +1373,9 @@ def _run(ck) -> None:
              "plain attribute, metadata): modelled, not verified here (C02/C04)",
              "protobuf parsing/equality; sys.addaudithook coverage of file-system entry points",
              "modelled not verified: Python recursion limit (deser_model is structurally recursive, no depth bound); "
-             "quantization annotations, device configurations, IR<10 function value-info format, metadata merge")
+             "quantization annotations, content of device configurations (opaque part of tokens), metadata merge; "
+             "IR<10 function value-info format: structure modelled (C03/ModelOld.v), its two name operations "
+             "(parse / compose of \"domain::function/value\") are per-case tables computed by the library")
     ck.assumptions += ["onnx/protobuf as installed in /venv", "CPython audit events cover open/os.*/mmap"]
     ck.notes.append("C17_ser_fixpoint is not proved: evaluated per case in Coq (Canon.model_fixpoint) and compared "
                     "with the implementation; C17_consistent / C17_deser_total are proved for all protos")
